@@ -9,6 +9,7 @@ def tasks(run):
     out += [('resolve', ('T_blocks', run.seed % 1000 + i, e)) for i in range(2) for e in ('add_metric', 'new_iterate')]
     out += [('partition_resolve', (run.seed % 1000 + i,)) for i in range(3)]
     out += [('partition_dropped_handle', (i,)) for i in range(2)]
+    out += [('partition_real', (i,)) for i in range(12 if run.tier == 'quick' else 48)]      # value 1 and real projections; direct instantiation; a block decomposed again
     return out
 
 
